@@ -48,11 +48,22 @@ int compint_to_size(zckCtx *zck, size_t *val, const char *compint,
     VALIDATE_BOOL(zck);
 
     *val = 0;
-    size_t old_val = 0;
     const unsigned char *i = (unsigned char *)compint;
     int count = 0;
     bool done = false;
     while(true) {
+        /* Make sure we don't read past the end of the buffer, the maximum
+         * encoded size, or overflow a 64-bit value */
+        if(*length >= max_length || count >= MAX_COMP_SIZE ||
+           (count == MAX_COMP_SIZE - 1 && (i[0] & 127) > 1)) {
+            if(*length >= max_length)
+                set_fatal_error(zck, "Read past end of header");
+            else
+                set_fatal_error(zck, "Number too large");
+            *length -= count;
+            *val = 0;
+            return false;
+        }
         size_t c = i[0];
         if(c >= 128) {
             c -= 128;
@@ -67,17 +78,6 @@ int compint_to_size(zckCtx *zck, size_t *val, const char *compint,
         if(done)
             break;
         i++;
-        /* Make sure we're not overflowing and fail if we do */
-        if(count >= MAX_COMP_SIZE || count >= max_length || *val < old_val) {
-            if(count > max_length)
-                set_fatal_error(zck, "Read past end of header");
-            else
-                set_fatal_error(zck, "Number too large");
-            *length -= count;
-            *val = 0;
-            return false;
-        }
-        old_val = *val;
     }
     return true;
 }
@@ -101,6 +101,10 @@ int compint_to_int(zckCtx *zck, int *val, const char *compint, size_t *length,
     size_t new = (size_t)*val;
     if(!compint_to_size(zck, &new, compint, length, max_length))
         return false;
+    if(new > INT32_MAX) {
+        set_fatal_error(zck, "Overflow error: compressed int is too large");
+        return false;
+    }
     *val = (int)new;
     if(*val < 0) {
         set_fatal_error(zck, "Overflow error: compressed int is negative");
